@@ -5,7 +5,7 @@ import "time"
 func init() {
 	props = append(props, prop{
 		ID: "C04", Title: "Flush liveness", Level: "fault_enumeration",
-		Rule:        "case = (tcp|unix) x (LT|ET|ONESHOT) x write origin (inside OnOpen before epoll registration | foreign goroutine in the registration gap (delay point addConn.afterOnOpen) | inside OnData | foreign goroutine | timer callback | another connection's OnClose callback | inside the DialAsync callback of a connection the engine dialed to a plain listener) x backlog shape (buffers | sendfile | mixed; in a quarter of the cases a Sendfile of a file with nothing left to send is queued inside or behind the backlog) x socket buffer sizes x delay before the peer starts reading; 5-8 MiB are written while the peer does not read, then the peer reads continuously and no further call is made. Outcome: complete (stream checked with the C01 oracle) or the stable write stuck-state: connection open, accessor backlog > 0, poll(POLLOUT) says writable, peer FIONREAD == 0, no progress over 60 samples / 3 s with idle process CPU while a control connection on the same single poller answers pings = violation. Phase shim additionally shortens/refuses transfers and, in LT/ONESHOT, refuses everything (EAGAIN) until the peer starts reading. A case is non-trivial if the accessor saw a non-empty backlog at the moment the peer started reading; distinct by case index",
+		Rule:        "case = (tcp|unix) x (LT|ET|ONESHOT) x write origin (inside OnOpen before epoll registration | foreign goroutine in the registration gap (delay point addConn.afterOnOpen) | inside OnData | foreign goroutine | timer callback | another connection's OnClose callback | inside the DialAsync callback of a connection the engine dialed to a plain listener) x backlog shape (buffers | sendfile | mixed; in a quarter of the cases a Sendfile of a file with nothing left to send is queued inside or behind the backlog) x socket buffer sizes x delay before the peer starts reading; 5-8 MiB are written while the peer does not read, then the peer reads continuously and no further call is made. Outcome: complete (stream checked with the C01 oracle) or the stable write stuck-state: connection open, accessor backlog > 0, poll(POLLOUT) says writable, peer FIONREAD == 0, no progress over 60 samples / 3 s with idle process CPU while a control connection on the same single poller answers pings = violation. Phase shim additionally shortens/refuses transfers and, in LT/ONESHOT, refuses everything (EAGAIN) until the peer starts reading. A case is non-trivial if the accessor saw a non-empty backlog at the moment the peer started reading; distinct by case index. Half of the ET/ONESHOT cells run with AsyncReadInPoller (signatures and cells say <mode>-async): the reading job re-arms the one-shot event itself and data-callback writes run on its goroutine",
 		Assumptions: append([]string{"'eventually' is decided as 'complete or provably stuck within the run'; a drain slower than the 120 s watchdog is inconclusive"}, commonAssumptions...),
 		Phases: []phase{
 			{Name: "real", Pkg: "./workers/c04", QuickShards: 12, ThorShards: 16, QuickTO: 6 * time.Minute},
